@@ -185,9 +185,14 @@ theorem isRequired_strip (f : Field) : isRequired stripFirst f = specRequired f 
 def specParam (f : Field) : Param :=
   if specRequired f then ⟨f.name, none⟩ else ⟨f.name, some (specDefault f)⟩
 
+theorem unwrapAliases_eq_specUnalias (t : Ty) : unwrapAliases t = specUnalias t := by
+  induction t with
+  | alias _ _ t ih => simpa [unwrapAliases, specUnalias] using ih
+  | _ => rfl
+
 theorem fieldParam_spec (f : Field)
-    (hwt : ∀ uns uname tag, f.dflt = some (.tag uns uname tag) → specUnalias f.ty = .union uns uname)
-    (hpr : ∀ s, f.dflt = some (.str s) → pformatWraps s = false) :
+    (hwt : ∀ u tag, f.dflt = some (.tag u tag) →
+      ∃ uns uname, specUnalias f.ty = .union uns uname ∧ specUnalias u = .union uns uname) :
     fieldParam f = .ok (specParam f) := by
   unfold fieldParam specParam specRequired specDefault
   simp only [stripFirst_nullable]
@@ -201,25 +206,25 @@ theorem fieldParam_spec (f : Field)
     | none => simp
     | some d =>
       cases d with
-      | tag uns uname tag =>
-        have := unalias_union_strip (hwt uns uname tag hd)
-        simp [genPythonValue, this, Ty.userNs, bind, Except.bind, pure, Except.pure]
+      | tag u tag =>
+        obtain ⟨uns, uname, hf, hu⟩ := hwt u tag hd
+        have := unalias_union_strip hf
+        simp [genPythonValue, this, Ty.userNs, unwrapAliases_eq_specUnalias, hu, hf, bind, Except.bind, pure, Except.pure]
       | bool b => simp [genPythonValue, bind, Except.bind, pure, Except.pure]
       | int i => simp [genPythonValue, bind, Except.bind, pure, Except.pure]
       | float x => simp [genPythonValue, bind, Except.bind, pure, Except.pure]
-      | str s => simp [genPythonValue, hpr s hd, bind, Except.bind, pure, Except.pure]
+      | str s => simp [genPythonValue, bind, Except.bind, pure, Except.pure]
 
 theorem wellTyped_field {api : Api} {r : Ref} (h : defaultsWellTyped api r = true) {f : Field} (hf : f ∈ declFields api r) :
-    ∀ uns uname tag, f.dflt = some (.tag uns uname tag) → specUnalias f.ty = .union uns uname := by
-  intro uns uname tag hd
+    ∀ u tag, f.dflt = some (.tag u tag) →
+      ∃ uns uname, specUnalias f.ty = .union uns uname ∧ specUnalias u = .union uns uname := by
+  intro u tag hd
   have := (List.all_eq_true.mp h) f hf
-  simpa [hd] using this
-
-theorem printable_field {api : Api} {r : Ref} (h : defaultsPrintable api r = true) {f : Field} (hf : f ∈ declFields api r) :
-    ∀ s, f.dflt = some (.str s) → pformatWraps s = false := by
-  intro s hd
-  have := (List.all_eq_true.mp h) f hf
-  simpa [hd] using this
+  simp only [hd, Bool.and_eq_true, beq_iff_eq] at this
+  obtain ⟨hu, he⟩ := this
+  cases hft : specUnalias f.ty with
+  | union uns uname => exact ⟨uns, uname, rfl, by rw [he, hft]⟩
+  | _ => rw [hft] at hu; cases hu
 
 theorem mem_allFields {view : Ty → Ty} {api : Api} {r : Ref} {f : Field} :
     f ∈ allFields view api r ↔ f ∈ declFields api r := by
